@@ -1050,6 +1050,35 @@ func (e *Engine) runDefers(st *State, k func(*State)) {
 
 func (e *Engine) doGo(st *State, in *ssa.Go) {
 	name := calleeName(&in.Call)
+	// the spawned function's precondition must hold where it is spawned (thread-modular
+	// rule: the body is verified separately against that precondition)
+	func() {
+		defer func() {
+			if r := recover(); r != nil {
+				if _, ok := r.(unsupported); !ok {
+					panic(r)
+				}
+			}
+		}()
+		t := e.resolveCall(st, &in.Call)
+		if t.contract == nil || t.contract.Extern {
+			return
+		}
+		env := e.contractEnv(st, t, nil)
+		env.newThread = true
+		for i, rq := range t.contract.Requires {
+			oname := st.ctx.oblName(in, "pre") + fmt.Sprintf("/%d", i+1)
+			tm, err := st.evalClause(env, rq)
+			if err != nil {
+				st.bindFail(oname, err)
+				continue
+			}
+			st.obligeNamed(oname, "pre", st.posOf(in), tm, fmt.Sprintf("precondition of goroutine %s at its go statement: %s", t.name, rq.Text))
+			if st.dead {
+				return
+			}
+		}
+	}()
 	st.event("go:"+name, in.Pos())
 	st.ctx.note("goroutine body %s is verified separately (if under contract); interleavings are not modelled", name)
 }
